@@ -1131,7 +1131,9 @@ def bfs(subject: Subject, on_edge: Callable[[Edge], None], prepare=None, on_clon
     queue = [root]
     if on_state is not None:
         on_state(root, None)
-    stats = {"states": 1, "edges": 0, "draw_sequences": 0, "truncated": False, "dead_edges": 0, "recovered_parents": 0}
+    stats = {"states": 1, "edges": 0, "draw_sequences": 0, "truncated": False, "dead_edges": 0, "recovered_parents": 0,
+             "pruned_out_of_bounds": 0}
+    root_bad = {(p["path"], p["field"], p["kind"]) for p in bound_problems(flat, flat_state(root)[1])}
     while queue:
         parent = queue.pop(0)
         try:
@@ -1164,6 +1166,11 @@ def bfs(subject: Subject, on_edge: Callable[[Edge], None], prepare=None, on_clon
                         if key not in seen:
                             if len(seen) >= max_states:
                                 stats["truncated"] = True
+                            elif any((p["path"], p["field"], p["kind"]) not in root_bad for p in bound_problems(e.post_flat, e.post_fams)):
+                                # a state OUTSIDE the declared bounds has been reported by the monitors; exploring on from it
+                                # would leave the (finite) graph this case enumerates and can run for hours on a broken tree
+                                seen[key] = len(seen)
+                                stats["pruned_out_of_bounds"] += 1
                             else:
                                 seen[key] = len(seen)
                                 queue.append(e.child)
